@@ -458,6 +458,9 @@ func c09NewPending(t *core.T, wd *sim.World, m *pendModel, v *sim.View) *wire.Ms
 	}
 	outs = append(outs, wire.NewTxOut(a, script))
 	outs = append(outs, wire.NewTxOut(val-a, sim.P2WSH(wd.StrangerPub())))
+	if t.R.Bool() {
+		outs[0], outs[1] = outs[1], outs[0] // the wallet's output (possibly a deposit) is not always output 0
+	}
 	return sim.Spend([]wire.OutPoint{in.OP}, nil, outs, uint64(t.R.Uint64()|1))
 }
 
